@@ -192,9 +192,12 @@ CLAIMED["C08"] = {
     "text": "c08_parent_ends_cloexec (at the fork the parent end of every stream pipe has had FD_CLOEXEC set successfully), status_marked, "
             "c08_parent_releases_child_ends, c08_child_closes_status_read; single spawning thread. On the real code the child's whole "
             "descriptor table at exec must contain nothing but 0,1,2 without close-on-exec, with 0 or 3 other live Popens.",
-    "note": SPAWN_NOTE + " PARTIAL: spawns from several threads at once (pipe ends are inheritable between pipe() and fcntl(): defect F9b) "
-            "is not covered. Pipelines (every terminator, lengths 2..7) are run by the pipe engine as part of this check: every "
-            "started command's descriptor table is inspected (Pipe.SpawnsClean / c13_nothing_else is the theorem).",
+    "note": SPAWN_NOTE + " Known finding C08 concurrent-spawn-window: for spawns from several threads the property does not hold "
+            "(pipe ends are inheritable between pipe() and fcntl(), child ends until the launch's own fork is over); the check "
+            "reproduces every such point deterministically (an unrelated launch run right after the k-th pipe()) and prints "
+            "KNOWN-FINDING; c08_concurrent_window_witness is the model-level witness. Pipelines (every terminator, lengths 2..7) "
+            "are run by the pipe engine as part of this check: every started command's descriptor table is inspected "
+            "(Pipe.SpawnsClean / c13_nothing_else is the theorem).",
 }
 CLAIMED["C15"] = {
     "engine": "spawn", "design_ref": "DESIGN.md section 6, C15",
